@@ -220,6 +220,12 @@ def compare(c, impl_line, drv_line):
         a, b = Fraction(impl_line), Fraction(model_s)
         return ("ok", "") if close(a, b, rel=TOL) else ("impl_vs_spec", f"total {a} vs {b}")
     i, m, s = parse_out(impl_line), parse_out(model_s), parse_out(spec_s)
+    if c["op"] == "normalize" and isinstance(i, tuple) and i[0] != "list" and 0 < len(i[1]) <= 64:
+        # the floating-point theorem (Props/C13Float.lean, flNormalize_sum_f64): under the standard rounding model
+        # with u = 2^-53 the EXACT sum of the computed intensities of at most 64 positive peaks is within 1e-14 of 1
+        tot = sum(x[1] for x in i[1])
+        if abs(tot - 1) > Fraction(1, 10 ** 14):
+            return "impl_vs_spec", f"normalize: the exact sum of the returned intensities is 1 {'+' if tot > 1 else '-'} {float(abs(tot - 1)):.3e} (> 1e-14)"
     if boundary:
         return "skipped", ""
     if spec_s != "unspecified" and not same_out(m, s):
